@@ -11,7 +11,7 @@ def explainer_integration(ctx, rng, nruns):
     import math
     import numpy as np
     from river import metrics
-    from ixai.explainer import IncrementalSage, IncrementalPFI, BatchSage
+    from ixai.explainer import IncrementalSage, IncrementalPFI, BatchSage, IntervalSage
     plain = {
         "MSE": lambda y, p: (float(y) - p["output"]) ** 2,
         "MAE": lambda y, p: abs(float(y) - p["output"]),
@@ -21,7 +21,7 @@ def explainer_integration(ctx, rng, nruns):
     n = 0
     for i in range(nruns):
         name = list(plain)[i % len(plain)]
-        cls = [IncrementalSage, IncrementalPFI][(i // len(plain)) % 2]
+        cls = [IncrementalSage, IncrementalPFI, BatchSage, IntervalSage][(i // len(plain)) % 4]
         seed = rng.randrange(2 ** 31)
         names = ["a", "b", "c"]
 
@@ -40,12 +40,17 @@ def explainer_integration(ctx, rng, nruns):
             random.seed(seed)
             np.random.seed(seed % 2 ** 32)
             data = random.Random(seed + 1)
-            ex = cls(model, loss, names, smoothing_alpha=0.3, dynamic_setting=bool(i % 2), n_inner_samples=2)
+            if cls is BatchSage:
+                ex = cls(model, names, loss, n_inner_samples=2)
+            elif cls is IntervalSage:
+                ex = cls(model, names, loss, n_inner_samples=2, interval_length=3, storage_length=5)
+            else:
+                ex = cls(model, loss, names, smoothing_alpha=0.3, dynamic_setting=bool(i % 2), n_inner_samples=2)
             out = []
-            for t in range(25):
+            for t in range(25 if cls in (IncrementalSage, IncrementalPFI) else 9):
                 x = {k: data.gauss(0, 1) for k in names}
                 y = data.choice([0, 1]) if name in ("Accuracy", "CrossEntropy") else data.gauss(0, 1)
-                out.append(dict(ex.explain_one(x, y)))
+                out.append(dict(ex.explain_one(x, y, verbose=False) if cls in (BatchSage, IntervalSage) else ex.explain_one(x, y)))
             results.append(out)
         n += 1
         ctx.nontrivial(("I", name, cls.__name__, i % 2))
@@ -106,7 +111,7 @@ def run(tier, seed):
         for (clause, detail) in ML.replay_history(name, h, 3, reuse_buffer=True, variant=total % ML.NVARIANTS):
             ctx.violation(clause, "metric=%s long history" % name, detail, {"metric": name, "history": h[:50]})
         total += 1
-    n_int = explainer_integration(ctx, rng, 6 if quick else 40)
+    n_int = explainer_integration(ctx, rng, 16 if quick else 64)
     ctx.add_stage("explainers driven by river metrics (MSE, MAE, Accuracy, CrossEntropy) give the same importance values as with the "
                   "equivalent plain loss function (same seeds)", "integration", runs=n_int)
     for (clause, detail) in ML.routing():
